@@ -19,12 +19,14 @@ Definition DEFAULT_CAP : Z := 1000000000.
 Definition nominal_size (cap : Z) : Z := (8 * cap + 5) / 10.
 Definition real_cap (nominal : Z) : Z := (5 * nominal + 2) / 4.
 
-(* data type kinds: 0 timestamp / int64, 1 uint8, 2 float32, 3 string, 4 json *)
+(* data type kinds: 0 timestamp / int64, 1 uint8, 2 float32, 3 string, 4 json.  On the
+   variable-length kinds the value 0 stands for the zero-length sample (length prefix only). *)
 Fixpoint ndigits_go (fuel : nat) (v : Z) : Z :=
   match fuel with O => 1 | S f => if v <? 10 then 1 else 1 + ndigits_go f (v / 10) end.
 Definition ndigits (v : Z) : Z := ndigits_go 20 v.
 Definition sample_bytes (kind v : Z) : Z :=
   if kind =? 0 then 8 else if kind =? 1 then 1 else if kind =? 2 then 4
+  else if v =? 0 then 4
   else if kind =? 3 then 4 + 1 + ndigits v + v mod 4
   else 4 + 6 + ndigits v + v mod 3.
 Definition bytes_of (kind : Z) (vs : list Z) : Z :=
